@@ -74,6 +74,11 @@ def make_jobs(rnd, tier):
             jobs.append(dict(cfg=dict(p=p, n=n, res=0, ign=0),
                              prog=[["input", 0, "priv", 0], ["input", 1, "priv", 1], ["input", 2, "priv", 2], ["const", 4, ["int", 1]], ["guarded", 0, [inner]], outer],
                              ins=[c, a, b], op="reuse-after-guard:%s,%s" % (inner[2], outer[2]), kinds="priv/priv/priv", full=1))
+        # error checking switched off (ignore_errors): whatever the operands, a result that is returned is still determined by them
+        for op in ("truediv", "floordiv", "mod"):
+            for (a, b) in ((0, 0), (3, 0), (0, 3), (6, 3)):
+                jobs.append(dict(cfg=dict(p=p, n=n, res=0, ign=1), prog=[["input", 0, "priv", 0], ["input", 1, "priv", 1], ["bin", 2, op, 0, 1]], ins=[a, b],
+                                 op=op, kinds="priv/priv", full=1))
         # an exception raised inside a lazy branch / guarded function, caught by the caller; the program carries on:
         # what is computed afterwards must be as sound as if the region had never been entered
         if p > 1000 or tier != "quick":
@@ -93,6 +98,15 @@ def make_jobs(rnd, tier):
                     jobs.append(dict(cfg=dict(p=p, n=n, res=0, ign=0), last_only=1, nomodel=1,
                                      prog=[["input", 0, "priv", 0], ["input", 1, "priv", 1], ["try", [["guarded", 0, [["raise", "ValueError"]]]]]] + follow,
                                      ins=[c, x], op="after-caught-exception:guarded-raise", kinds="priv/priv", full=1))
+    # widths beyond the default bitlength of 16 (tables sized at import time would be too short): decompositions, shifts, comparisons
+    for nn in (20, 24):
+        for (prog, ins, op) in (([["input", 0, "priv", 0], ["meth", 1, "to_bits", None, 0, []]], [1000], "to_bits"),
+                                ([["input", 0, "priv", 0], ["const", 1, ["int", 4]], ["bin", 2, "rshift", 0, 1]], [1000], "rshift"),
+                                ([["input", 0, "priv", 0], ["input", 1, "priv", 1], ["bin", 2, "lt", 0, 1]], [70000, 5], "lt"),
+                                ([["input", 0, "priv", 0], ["meth", 1, "check_positive", None, 0, []]], [-70000], "check_positive"),
+                                ([["input", 0, "priv", 0], ["input", 1, "priv", 1], ["bin", 2, "and", 0, 1]], [70001, 65537], "and")):
+            # (decided by the trace correspondence with the model, whose theorems cover every width; the witness-space search does not scale to 20+ free bits)
+            jobs.append(dict(cfg=dict(p=BN, n=nn, res=0, ign=0), prog=prog, ins=ins, op=op + "(n=%d)" % nn, kinds="priv" if len(ins) == 1 else "priv/priv", full=1, nosolve=1))
     return jobs
 
 
@@ -126,6 +140,7 @@ def last_stmt_outs(rec, nstmts):
 
 def work(arg):
     job, rec = arg
+    if job.get("nosolve"): return dict(status="skipped")
     if rec["exn"] is not None or "trace" not in rec: return dict(status="raised", exn=rec["exn"])
     p = job["cfg"]["p"]
     tr = rec["trace"]
